@@ -532,3 +532,134 @@ func condMonotoneStores(w *World, br *boundsRun, name string, withUpper bool) fu
 		return true, ""
 	}
 }
+
+// RunPrevSentinel: order checks against a loop-carried "previous" value.
+// A loop that rejects its input when `cur <= prev` (ranges must not touch or
+// overlap) compares the first element with the initial value of prev.  When
+// that initial value is the constant 0 and cur is unsigned data, an element 0
+// — a range that starts at code point or glyph 0 — is rejected although it
+// is valid; the test must be skipped for the first element (`i > 0 && …`), be
+// strict (`cur < prev`), or prev must start outside the data domain.
+func RunPrevSentinel(w *World, r *Report, fns []*ssa.Function) {
+	r.Rule("prevsentinel: where a decoding loop rejects an element that is <= the loop-carried previous value, and that value starts as the constant 0, the comparison is not evaluated for the first element (it is control-dependent, inside the loop, on a test of the loop counter or a first-element flag): otherwise a table whose first range starts at 0 is refused")
+	for _, fn := range fns {
+		if fn.Blocks == nil {
+			continue
+		}
+		var ci *ctrlInfo
+		for _, l := range naturalLoops(fn) {
+			for _, hi := range l.head.Instrs {
+				prev, ok := hi.(*ssa.Phi)
+				if !ok {
+					break
+				}
+				if !isIntType(prev.Type()) || !isUnsigned(prev.Type()) {
+					continue
+				}
+				zeroInit, dataStep := false, false
+				for i, e := range prev.Edges {
+					if !l.body[l.head.Preds[i]] {
+						if c, ok := bconstInt(e); ok && c == 0 {
+							zeroInit = true
+						}
+						continue
+					}
+					// the back-edge value is data, not prev+const
+					if bo, ok := e.(*ssa.BinOp); ok && (bo.X == ssa.Value(prev) || bo.Y == ssa.Value(prev)) {
+						continue
+					}
+					if e != ssa.Value(prev) {
+						dataStep = true
+					}
+				}
+				if !zeroInit || !dataStep || prev.Referrers() == nil {
+					continue
+				}
+				for _, ref := range *prev.Referrers() {
+					cmp, ok := ref.(*ssa.BinOp)
+					if !ok || !l.body[cmp.Block()] {
+						continue
+					}
+					// cur <= prev  or  prev >= cur
+					rejectEq := (cmp.Op == token.LEQ && cmp.Y == ssa.Value(prev)) || (cmp.Op == token.GEQ && cmp.X == ssa.Value(prev))
+					if !rejectEq {
+						continue
+					}
+					// the taken branch must reject (reach an error return without coming back to the loop head)
+					if !leadsToReject(cmp, l) {
+						continue
+					}
+					if ci == nil {
+						ci = ctrlDeps(fn)
+					}
+					guarded := false
+					for _, d := range ci.dep[cmp.Block()] {
+						if !l.body[d] || d == l.head || !d.Dominates(cmp.Block()) {
+							continue // (tests of an earlier iteration do not guard this one)
+						}
+						ifi, ok := d.Instrs[len(d.Instrs)-1].(*ssa.If)
+						if !ok {
+							continue
+						}
+						// a test that does not involve prev or the data: counter or flag
+						sl := backSlice(ifi.Cond)
+						if !sl[prev] {
+							guarded = true
+						}
+					}
+					key := r.MkKey("prevsentinel", fnName(fn), "order test against the previous element")
+					if guarded {
+						r.OK("prevsentinel", key, w.Pos(cmp.Pos()), "not evaluated for the first element")
+					} else {
+						r.Fail("prevsentinel", key, w.Pos(cmp.Pos()), "the element is rejected when it is <= the previous value, which starts as 0, and the test also runs for the first element: a table whose first range starts at 0 is refused although it is valid", nil)
+					}
+				}
+			}
+		}
+	}
+}
+
+// leadsToReject: the true edge of the branch on cmp reaches a return of a
+// non-nil error without passing the loop head again.
+func leadsToReject(cmp *ssa.BinOp, l *natLoop) bool {
+	if cmp.Referrers() == nil {
+		return false
+	}
+	for _, ref := range *cmp.Referrers() {
+		var start *ssa.BasicBlock
+		switch x := ref.(type) {
+		case *ssa.If:
+			start = x.Block().Succs[0]
+		case *ssa.Phi:
+			// part of a && / || chain: follow the join's branch
+			if ifi, ok := x.Block().Instrs[len(x.Block().Instrs)-1].(*ssa.If); ok && ifi.Cond == ssa.Value(x) {
+				start = x.Block().Succs[0]
+			}
+		}
+		if start == nil {
+			continue
+		}
+		seen := map[*ssa.BasicBlock]bool{}
+		stack := []*ssa.BasicBlock{start}
+		for len(stack) > 0 {
+			b := stack[len(stack)-1]
+			stack = stack[:len(stack)-1]
+			if seen[b] || b == l.head {
+				continue
+			}
+			seen[b] = true
+			if rt, ok := b.Instrs[len(b.Instrs)-1].(*ssa.Return); ok {
+				n := len(rt.Results)
+				if n > 0 && !isNilConst(rt.Results[n-1]) {
+					return true
+				}
+				continue
+			}
+			if len(seen) > 6 {
+				break
+			}
+			stack = append(stack, b.Succs...)
+		}
+	}
+	return false
+}
